@@ -445,7 +445,10 @@ CoercedBoth(defs, lv, alt, name, sch) ==
 ParamVerdict(op, lv, alt, q) ==
   IF Fld(q, "json", FALSE) THEN ValidD(op.defs, q.schema, ObjGet(lv, q.name), "request", op.dia)
   ELSE CoercedBoth(op.defs, lv, alt, q.name, q.schema)
-PartVerdict(op, lv, alt, loc) ==
+(* `given` = the keys of this location that the CALLER supplied explicitly (as_strategy(headers={...})): they are not generated content.
+   An undeclared key among them is ignored; a GENERATED undeclared key makes the location undecided (the standard's and the
+   implementation's reading of "extra parameter" differ, DESIGN Appendix D). *)
+PartVerdict(op, lv, alt, loc, given) ==
   LET ps == ParamsAt(op, loc)
       has(n) == lv.t = "obj" /\ ObjHas(lv, n)
   IN IF lv.t \notin {"obj", "absent"} THEN "U"
@@ -453,7 +456,8 @@ PartVerdict(op, lv, alt, loc) ==
      ELSE IF \E i \in ps : op.params[i].required /\ ~has(op.params[i].name) THEN "F"            \* missing required parameter
      ELSE IF \E i \in ps : has(op.params[i].name) /\ ParamVerdict(op, lv, alt, op.params[i]) = "F" THEN "F"
      ELSE IF \E i \in ps : has(op.params[i].name) /\ ParamVerdict(op, lv, alt, op.params[i]) = "U" THEN "U"
-     ELSE IF lv.t = "obj" /\ \E j \in DOMAIN lv.k : ~\E i \in ps : op.params[i].name = lv.k[j] THEN "U"   \* undeclared parameter: readings differ
+     ELSE IF lv.t = "obj" /\ \E j \in DOMAIN lv.k : (~\E i \in ps : op.params[i].name = lv.k[j]) /\ (~\E g \in DOMAIN given : given[g] = lv.k[j])
+          THEN "U"   \* generated undeclared parameter: readings differ
      ELSE "T"
 (* the body: absent, or a value judged against the alternative of the case's media type *)
 BodyVerdict(op, c) ==
@@ -464,7 +468,8 @@ BodyVerdict(op, c) ==
        ELSE LET r == {ValidD(op.defs, op.bodies[i].schema, c.body, "request", op.dia) : i \in m} IN
             IF r = {"T"} THEN "T" ELSE IF r = {"F"} THEN "F" ELSE "U"
 Parts == Locations \cup {"body"}
-Verdict(op, c, part) == IF part = "body" THEN BodyVerdict(op, c) ELSE PartVerdict(op, c.parts[part], c.alt[part], part)
+GivenKeys(c, part) == IF Has(c, "given") THEN c.given[part] ELSE <<>>
+Verdict(op, c, part) == IF part = "body" THEN BodyVerdict(op, c) ELSE PartVerdict(op, c.parts[part], c.alt[part], part, GivenKeys(c, part))
 Present(c, part) == IF part = "body" THEN c.hasBody ELSE c.parts[part].t # "absent"
 
 (* ---- C03: value level ---- *)
